@@ -190,6 +190,11 @@ def op_prop_get_mutate(a, m, u):
     got[0, 0] = 12345.0
     sub = a.prop('f', index=[0, 2]); sub[0, 0] = 54321.0
     one = a.prop(index=1); one.pos[0, 0] = 999.0
+    # index forms that are views for NumPy itself: a slice, a strided slice, a single row, a negative row
+    sl = a.prop('pos', index=slice(0, 2)); sl[0, 1] = 777.0
+    st = a.prop('f', index=slice(None, None, 2)); st[0, 0] = 666.0
+    row = a.prop('pos', index=1); row[2] = 555.0
+    neg = a.prop('f', index=-1); neg[0] = 444.0
     return a, m, ('flag', 'prop() result shares no memory with storage', not shared)
 
 
@@ -316,6 +321,11 @@ def h_system(variant):
             m2 = Model([dict(r) for r in rows] + [dict(atype=newt, pos=cart, f=[0.5, 0.25], q=1)])
             ob += compare(s2.atoms, m2, f'atoms_extend(Atoms, scale={scale})')
             ob += [(t + ' [operand unchanged]', v) for t, v in compare(s.atoms, Model(rows), 'host of atoms_extend')]
+            # the Atoms that were added are an operand too: unchanged (also for safecopy=False), so that adding them again gives the same result
+            ob += [(t + ' [added Atoms unchanged]', v) for t, v in compare(other, Model([dict(atype=newt, pos=list(newp), f=[0.5, 0.25], q=1)]), 'value of atoms_extend')]
+            s2b = s.atoms_extend(other, scale=scale, safecopy=False)
+            ob += [(t + ' [added Atoms unchanged, safecopy=False]', v) for t, v in compare(other, Model([dict(atype=newt, pos=list(newp), f=[0.5, 0.25], q=1)]), 'value of atoms_extend')]
+            ob += compare(s2b.atoms, m2, f'second atoms_extend(Atoms, scale={scale}, safecopy=False) with the same Atoms')
             s3 = s.atoms_extend(2)
             ob.append(('atoms_extend(2) adds two atoms of type 1 at the origin', band(s3.natoms == 5, eq(s3.atoms.atype[3], 1), eq(s3.atoms.atype[4], 1), *[eq(s3.atoms.pos[4, i], 0) for i in range(3)])))
         return ob
